@@ -174,6 +174,10 @@ def targeted_case(rnd, kind, ntok, gap, wrap, indent, nprefix, start, split, chu
             phys = [p + (' \\' if i < len(phys) - 1 else trail) for i, p in enumerate(phys)]
             if rnd.random() < 0.4:
                 phys.insert(1, '# comment inside the continuation')
+    if rnd.random() < 0.25:
+        # a physical line that holds nothing but the continuation character (also as the first line of the statement): it is part of the
+        # logical line, which starts there
+        phys.insert(rnd.randrange(0, len(phys)), rnd.choice(['\\', '  \\', '\t\\ ', '\\  ']))
     lines.extend(phys)
     lines.extend(CLOSERS.get(kind, []))
     text = '\n'.join(lines)
@@ -335,7 +339,7 @@ def mutate_program(rnd, src):
             i = rnd.choice(closers)
             return '\n'.join(lines[:i] + lines[i + 1:]), 'closing-keyword-deleted'
     if m < 0.45:
-        return '\n'.join(lines) + rnd.choice([' \\', '\\', ' \\  ']), 'trailing-continuation'
+        return '\n'.join(lines) + rnd.choice([' \\', '\\', ' \\  ', '\n\\', '\n  \\\n', '\n\\\n# comment\n\n']), 'trailing-continuation'
     i = rnd.randrange(len(lines))
     words = lines[i].split(' ')
     j = rnd.randrange(len(words))
